@@ -83,6 +83,43 @@ def arclen_work(line, stratum):
     return Case(line, 'IF', judge, stratum, 'corr-F')
 
 
+def agm_pass_bound(acc, rx, ry):
+    """`agmPassBound` of Proofs/Lemmas/C11ELoop.lean: max(1, ceil(log2(ceil(c0^2 / (acc' g0))))) for the radii |rx|, |ry| (exact rationals)"""
+    from fractions import Fraction as Fr
+    x, y = max(abs(rx), abs(ry)), min(abs(rx), abs(ry))
+    g0 = Fr(y) / Fr(x)
+    accp = Fr(acc) / (2 * Fr(math.pi) * Fr(x))
+    q = (1 - g0 * g0) / (accp * g0)
+    c = -((-q.numerator) // q.denominator)      # ceil
+    return max(1, (c - 1).bit_length() if c > 1 else 0)
+
+
+@maker(MAKERS)
+def ellperim_work(cx, cy, rx, ry, rot, acc, stratum):
+    """the loop of agm_elliptic_perimeter: the crate's work counter == the pass count of the Float model (and the values are bit-identical),
+    and both stay within the proved bound of exact arithmetic (theorem ellipse_perimeter_bounded_work; + 1 pass for binary64 rounding
+    and for the rounding of the radii in Affine::svd)"""
+    line = f'ellipse.perimeter_work {H(cx, cy, rx, ry, rot, acc)}'
+
+    def judge(o):
+        i, f = o['I'][0], o['F'][0]
+        if i.startswith('PANIC') or engine_error(i) or engine_error(f):
+            return f'panic / engine error: {i[:120]} / {f[:120]}'
+        if i.split() != f.split() and not cmp_exact(i, f):
+            return f'CORR ellipse perimeter: crate (value, passes) = {i}, Float model = {f}'
+        n = int(i.split()[1])
+        if min(abs(rx), abs(ry)) > 0:
+            bound = agm_pass_bound(acc, rx, ry)
+            if n > bound + 1:
+                return f'agm_elliptic_perimeter made {n} passes, the bound of exact arithmetic is {bound}'
+        elif n != 0:
+            return f'degenerate ellipse but {n} passes of the loop'
+        if not finite_out(i.split()[0]):
+            return f'non-finite perimeter {i}'
+        return None
+    return Case(line, 'IF', judge, stratum, 'corr-F')
+
+
 def els_str(els):
     return ' '.join(el[0] + (' ' + ' '.join(H(*p) for p in el[1:]) if len(el) > 1 else '') for el in els)
 
@@ -309,6 +346,20 @@ def generate(rng, tier):
         # numbers at the edge of the supported range and relative moves that add up (finite literals <= 1e15 must give finite paths)
         e = rng.choice(['1e15', '-9.9e14', '1e-320', '123456789012345', '0.000000000000001', '1E+15'])
         yield total(f'svg.parse {hx("M" + e + " 0l" + e + " " + e + "c1 1 2 2 " + e + " 0z")}', 'svg-large-numbers')
+    # Ellipse::perimeter: passes of the AGM loop against the model and the proved bound (C11E): radii 1e-3..1e4, aspect 1..1e6, accuracy 1e-12..1 x size
+    for _ in range(300 if tier == 'quick' else 20000):
+        big = 10.0 ** rng.uniform(-3, 4)
+        small = big / 10.0 ** rng.uniform(0, 6)
+        rx, ry = (big, small) if rng.random() < 0.5 else (small, big)
+        rot = rng.choice([0.0, rng.uniform(-4, 4)])
+        if rng.random() < 0.05:
+            rx, ry = rng.choice([(0.0, ry), (rx, 0.0), (rx, rx)])
+            if rx == 0.0 or ry == 0.0:
+                # a zero radius is exact only without rotation: with one, Affine::svd may return a NaN minor radius (sqrt of a rounding-negative
+                # difference) and perimeter answers NaN - reported with C11E, outside the quantifier of this property (no degenerate shapes in it)
+                rot = 0.0
+        yield ellperim_work(rng.uniform(-10, 10), rng.uniform(-10, 10), rx, ry, rot, big * 10.0 ** rng.uniform(-12, 0), 'ellipse-perimeter-passes')
+
 
 
 
